@@ -55,8 +55,15 @@ func (s *sessionManager) join(message *Message, activeChan chan<- *ActiveMessage
 				key, v.joinTime.Format(time.RFC3339)), _errKeyExist)
 			return
 		}
+		// 会话保存头部的一份拷贝: 这条报文已经交给回调了 下发指令编码时会改写头部(消息体长度 回复ID 平台流水号)
+		// 和报文共用同一个头部的话 回调里读取报文和写协程编码下发指令就是并发读写
+		header := *message.Header
+		if message.Header.Property != nil {
+			property := *message.Header.Property
+			header.Property = &property
+		}
 		record[key] = &session{
-			header:        message.Header,
+			header:        &header,
 			joinTime:      time.Now(),
 			activeMsgChan: activeChan,
 		}
